@@ -89,7 +89,7 @@ func getFrontierRewardByPage(chain chain.Chain, contract types.Address, address 
 		return nil, err
 	}
 
-	epoch := lastEpoch.LastEpoch - int64(pageIndex*pageSize)
+	epoch := lastEpoch.LastEpoch - int64(pageIndex)*int64(pageSize)
 
 	result := &RewardHistoryList{
 		Count: lastEpoch.LastEpoch + 1,
